@@ -9,7 +9,11 @@ REQUIRED = [P + n for n in [
     "optimized_combiner_pixel", "optimizeOperator_cell", "mulUn8_opaque", "maskedU_opaque", "unified_mask_elision",
     "combineMask_opaque", "optimized_combinerCa_pixel", "unifiedPixel_mask_elision", "compositePixel_spec",
     "opaque_flag_sound_partial",
-]] + ["Pixman.Props.C01.unified_correct", "Pixman.Props.C01.componentAlpha_correct"]
+]] + ["Pixman.Props.C01.unified_correct", "Pixman.Props.C01.componentAlpha_correct"] + [
+    "Pixman.Props.C09Flags." + n for n in [
+        "is_opaque_flag", "samples_opaque_flag", "cover_bits_clear", "solid_flag_sound", "bits_flag_sound",
+        "gradient_flag_sound_partial", "promotion_sound", "source_opaque_sound_partial", "mask_opaque_sound_partial",
+        "dest_opaque_sound"]] + ["Pixman.Lemmas.OpacityFlags.computeImageInfo_eq", "Pixman.Lemmas.OpacityFlags.flags_tb"]
 
 RULE = ("groups of 3-6 presentations of one logical request (1-row composites of 1..12 pixels), once per implementation chain: "
         "opaque source as a8r8g8b8 alpha 255 / x8r8g8b8 (junk in x) / x8r8g8b8 repeating / solid; opaque unified mask as "
@@ -33,7 +37,7 @@ ORULE = ("opacity stream: groups of 1-8 composites (1..12 x 1..6 pixels) present
 
 
 def run(ctx):
-    broken = ctx.lean_obligations("Pixman.Props.C09", REQUIRED)
+    broken = ctx.lean_obligations("Pixman.Props.C09", REQUIRED, extra_modules=["Pixman.Props.C09Flags"])
     quick = ctx.tier == "quick"
     findings = cc.run_streams(ctx, 1, 15000 if quick else 40000, 16 if quick else 64)
     ctx.cov["rule"] = RULE
@@ -49,7 +53,13 @@ def run(ctx):
         "solid / repeating; transforms, filters, partly-outside rectangles and r5g6b5 precision classes are not generated here",
         "table_sound_partial: the SATURATE row (-> OVER_REVERSE / DST / DST) is not proved (factor min(1,(1-da)/sa) lives in the "
         "float pipeline); all other rows are proved equivalent or are the identity",
-        "O3 (soundness of FAST_PATH_IS_OPAQUE / SAMPLES_OPAQUE as computed by compute_image_info) is exercised by the pairs, not proved",
+        "O3 (Props/C09Flags): proved for the literal compute_image_info model (C14) + analyze_extent (C04) + the regenerated promotion block; "
+        "source/mask_opaque_sound_partial hold for affine transforms only (for projective transforms the library's cover flags are unsound: "
+        "known findings C09-F2*), take 'ID_TRANSFORM bit => no transform' as a hypothesis, and stop at 'every sample lies inside the image' "
+        "(alpha 255 of such samples is C10/C08); gradients: the flag rule only (renderers: C13)",
+        "opacity stream: no alpha maps, clip regions, accessors, indexed/gray/YUV formats, separable-convolution filter, dithering, pixbuf special case; "
+        "gradient sources get the decision check and a render-alone oracle only; float-pipeline bilinear rounding (known findings C09-F1*) is matched by "
+        "shape (role, alpha vs alpha-less presentation, float pipeline, bilinear, difference <= 8*2^-24 / 1 LSB)",
     ]
 
 
